@@ -135,10 +135,20 @@ Inductive sdefault :=
    every renderer must address the column by c_name *)
 Record column := mkCol { c_name : ident; c_type : tytok; c_default : option sdefault; c_autoinc : option bool;
                          c_nullable : bool; c_system : bool; c_comment : option str; c_key : option str }.
-(* the referred column of a foreign key: ForeignKey._get_colspec() (which names the column by its KEY) and, when _fk_colspec
-   finds the referred table in the namespace MetaData, the same spec with the column's database NAME *)
-Record refcol := mkRef { rf_spec : str; rf_named : option str }.
-Definition ref_text (r:refcol) : str := match rf_named r with Some n => n | None => rf_spec r end.
+(* the referred column of a foreign key, as render._fk_colspec sees it:
+     rf_tokens  ForeignKey._get_colspec() (which names the column by its KEY) split at the dots: [table; key],
+                [schema; table; key] or, for a dotted schema such as otherdb.dbo, [otherdb; dbo; table; key];
+     rf_named   the database NAME of the referred column when _fk_colspec finds the referred table -- looked up under
+                ALL the tokens but the last, joined again -- in the namespace MetaData.
+   The rendered spec is that full table name, a dot, and the name (the key when the table was not found). *)
+Record refcol := mkRef { rf_tokens : list str; rf_named : option str }.
+Fixpoint join_dot (l:list str) : str :=
+  match l with [] => [] | [x] => x | x :: r => x ++ 46%N :: join_dot r end.
+Definition ref_text (r:refcol) : str :=
+  match rev (rf_tokens r) with
+  | [] => []
+  | k :: tbl_rev => join_dot (rev tbl_rev ++ [match rf_named r with Some n => n | None => k end])
+  end.
 
 Inductive tcons :=
 | CPk (cols : list ident) (name : cname)
@@ -535,7 +545,7 @@ Definition eval_constraint (c:cfg) (e:pyexpr) : option tcons :=
     ou <- opt_arg as_str (kwarg "onupdate" args) ;; od <- opt_arg as_str (kwarg "ondelete" args) ;;
     i <- opt_arg as_str (kwarg "initially" args) ;; d <- opt_arg as_bool (kwarg "deferrable" args) ;;
     ua <- flag_arg (kwarg "use_alter" args) ;; m <- opt_arg as_str (kwarg "match" args) ;;
-    Some (CFk cols (map (fun s => mkRef s None) refs) name ou od i d ua m)
+    Some (CFk cols (map (fun s => mkRef [s] None) refs) name ou od i d ua m)
   else None.
 
 Definition is_column_call (c:cfg) (e:pyexpr) : bool :=
@@ -661,7 +671,7 @@ Definition eval_stmts (c:cfg) (l:list pystmt) : option (list top_op) := mapM (ev
 (* the operation objects built from the rendered text address every column by its database name: keys are gone *)
 Definition nk_col (x:column) : column :=
   mkCol (c_name x) (c_type x) (c_default x) (c_autoinc x) (c_nullable x) (c_system x) (c_comment x) None.
-Definition nk_ref (r:refcol) : refcol := mkRef (ref_text r) None.
+Definition nk_ref (r:refcol) : refcol := mkRef [ref_text r] None.
 Definition nk_cons (k:tcons) : tcons :=
   match k with CFk cols refs n ou od i d ua m => CFk cols (map nk_ref refs) n ou od i d ua m | x => x end.
 Definition nk_ix (e:ixexpr) : ixexpr := match e with IxCol i _ => IxCol i None | x => x end.
@@ -691,3 +701,38 @@ Definition expected_top (c:cfg) (o0:top_op) : list top_op :=
   | _ => [o]
   end.
 Definition expected (c:cfg) (ops:list top_op) : list top_op := flat_map (expected_top c) ops.
+
+(* ---------------------------------------------------------------- the imports a rendering collects
+   _repr_type adds  from sqlalchemy.dialects import <d>  to autogen_context.imports for every type of a dialect module that
+   it renders; the file template writes these lines above the rendered body, and nothing else binds the name <d> there.
+   The types that are rendered: column types of create_table / add_column, existing_type and type_ of alter_column (the
+   columns a drop_table operation remembers are not).  An import is represented by its dialect name. *)
+Definition ty_dialect (t:tytok) : list str := match ty_mod t with TySa => [] | TyDialect d => [d] end.
+Definition oty_dialect (t:option tytok) : list str := match t with Some x => ty_dialect x | None => [] end.
+Definition tbl_op_dialects (o:tbl_op) : list str :=
+  match o with
+  | OAddColumn x => ty_dialect (c_type x)
+  | OAlterColumn a => oty_dialect (a_existing_type a) ++ oty_dialect (a_type a)
+  | _ => []
+  end.
+Definition top_dialects (o:top_op) : list str :=
+  match o with
+  | TCreateTable t => flat_map (fun x => ty_dialect (c_type x)) (t_cols t)
+  | TOp _ _ o => tbl_op_dialects o
+  | TModify _ _ ops => flat_map (fun m => tbl_op_dialects (snd m)) ops
+  | _ => []
+  end.
+Definition dialects_of (ops:list top_op) : list str := flat_map top_dialects ops.
+Definition render_imports (ops:list top_op) : list str := dialects_of ops.
+Definition import_line (d:str) : str := lit "from sqlalchemy.dialects import " ++ d.
+
+(* the rendered body evaluated in a namespace that holds ONLY the two configured module names (and batch_op inside a
+   with-block) and what the given import lines bind: eval_stmts refuses every call whose head is another name, except in
+   type position, where the head is recorded as the dialect of the type; here those have to be imported ones
+   (a NameError otherwise).  The argument trees of a type are opaque to the model (the harness executes them for real). *)
+Definition memb (x:str) (l:list str) : bool := existsb (str_eqb x) l.
+Definition eval_in (c:cfg) (imports:list str) (l:list pystmt) : option (list top_op) :=
+  match eval_stmts c l with
+  | Some ops => if forallb (fun d => memb d imports) (dialects_of ops) then Some ops else None
+  | None => None
+  end.
